@@ -56,7 +56,31 @@ func (g *gen) skeleton(stmts []ast.Stmt) string {
 				}
 			}
 			parts = append(parts, pre...)
-			parts = append(parts, "if "+g.exprString(s.Cond)+" { "+g.skeleton(s.Body.List)+" }")
+			txt := "if " + g.exprString(s.Cond) + " { " + g.skeleton(s.Body.List) + " }"
+			if s.Else != nil {
+				txt += " else { " + g.skeleton([]ast.Stmt{s.Else}) + " }"
+			}
+			parts = append(parts, txt)
+		case *ast.DeclStmt:
+			if gd, ok := s.Decl.(*ast.GenDecl); ok {
+				for _, sp := range gd.Specs {
+					if vs, ok := sp.(*ast.ValueSpec); ok {
+						for _, v := range vs.Values {
+							parts = append(parts, exprCalls(v)...)
+						}
+					}
+				}
+			}
+		case *ast.RangeStmt:
+			parts = append(parts, "range "+g.exprString(s.X)+" { "+g.skeleton(s.Body.List)+" }")
+		case *ast.ForStmt:
+			parts = append(parts, "for { "+g.skeleton(s.Body.List)+" }")
+		case *ast.BlockStmt:
+			parts = append(parts, g.skeleton(s.List))
+		case *ast.SwitchStmt:
+			parts = append(parts, "switch { "+g.caseClauses(s.Body.List)+" }")
+		case *ast.TypeSwitchStmt:
+			parts = append(parts, "typeswitch { "+g.caseClauses(s.Body.List)+" }")
 		case *ast.ReturnStmt:
 			calls := []string{}
 			for _, r := range s.Results {
@@ -70,6 +94,23 @@ func (g *gen) skeleton(stmts []ast.Stmt) string {
 		}
 	}
 	return strings.Join(parts, "; ")
+}
+
+func (g *gen) caseClauses(stmts []ast.Stmt) string {
+	out := []string{}
+	for _, st := range stmts {
+		if cc, ok := st.(*ast.CaseClause); ok {
+			labels := []string{}
+			for _, e := range cc.List {
+				labels = append(labels, g.exprString(e))
+			}
+			if len(labels) == 0 {
+				labels = []string{"default"}
+			}
+			out = append(out, "case "+strings.Join(labels, ",")+": "+g.skeleton(cc.Body))
+		}
+	}
+	return strings.Join(out, " | ")
 }
 
 // pipeline: F-events / F-skeleton - the event enumeration, and per pipeline function its control-flow skeleton.
@@ -112,6 +153,13 @@ func (g *gen) pipeline() {
 		{"sk_close_event_chan", "internal/validator/events.go", "CloseEventChan"},
 		{"sk_dispatch_event", "internal/validator/events.go", "dispatchEvent"},
 		{"sk_milestones", "pkg/milestones/milestones.go", "GenerateMilestonesFromEvents"},
+		{"sk_index", "internal/validator/normalizer.go", "Index"},
+		{"sk_add_lexical_entry", "internal/validator/normalizer.go", "addLexicalEntryFrom"},
+		{"sk_create_location_index", "internal/validator/normalizer.go", "createLocationIndex"},
+		{"sk_add_elements_of_loc", "internal/validator/normalizer.go", "addElementsOfLoc"},
+		{"sk_handle_single_or_multiple", "internal/validator/normalizer.go", "handleSingleOrMultipleNodes"},
+		{"sk_location", "internal/validator/normalizer.go", "Location"},
+		{"sk_normalize", "internal/validator/normalizer.go", "Normalize"},
 	}
 	var b strings.Builder
 	b.WriteString("Definition event_names : list string := " + CoqStringList(evs) + ".\n")
